@@ -3,6 +3,7 @@ package otlptracehttp
 // C13 (unit wire-otlptracehttp) — what the exporter puts on the wire; see internal/verifc13w.
 
 import (
+	"sort"
 	"context"
 	"fmt"
 	"testing"
@@ -46,20 +47,53 @@ func c13wBatch(svc string, n int) []tracesdk.ReadOnlySpan {
 	return stubs.Snapshots()
 }
 
+// c13wMixed: two resources x two scopes in ONE batch (the other batches have one group each).
+func c13wMixed() []tracesdk.ReadOnlySpan {
+	t0 := time.Unix(1700000000, 0)
+	var stubs tracetest.SpanStubs
+	i := 0
+	for _, svc := range []string{"ra", "rb"} {
+		for _, sc := range []string{"s1", "s2"} {
+			for k := 0; k < 3; k++ {
+				i++
+				stubs = append(stubs, tracetest.SpanStub{
+					Name:        fmt.Sprintf("%s-%s-%d", svc, sc, k),
+					SpanContext: trace.NewSpanContext(trace.SpanContextConfig{TraceID: trace.TraceID{7, byte(i)}, SpanID: trace.SpanID{8, byte(i)}, TraceFlags: trace.FlagsSampled}),
+					StartTime:   t0, EndTime: t0.Add(time.Duration(i) * time.Millisecond),
+					Attributes:  []attribute.KeyValue{attribute.String("owner", svc+"/"+sc)},
+					Resource:    resource.NewSchemaless(attribute.String("service.name", svc)), InstrumentationScope: instrumentation.Scope{Name: sc},
+				})
+			}
+		}
+	}
+	return stubs.Snapshots()
+}
+
+// c13wSort puts the groups of a request into one order (the transform groups through a map).
+func c13wSort(r *coltracepb.ExportTraceServiceRequest) {
+	key := func(m proto.Message) string { b, _ := proto.MarshalOptions{Deterministic: true}.Marshal(m); return string(b) }
+	for _, rs := range r.ResourceSpans {
+		sort.Slice(rs.ScopeSpans, func(a, b int) bool { return key(rs.ScopeSpans[a].Scope) < key(rs.ScopeSpans[b].Scope) })
+	}
+	sort.Slice(r.ResourceSpans, func(a, b int) bool { return key(r.ResourceSpans[a].Resource) < key(r.ResourceSpans[b].Resource) })
+}
+
 func TestVerifC13Wire(t *testing.T) {
-	bs := [][]tracesdk.ReadOnlySpan{c13wBatch("small", 1), c13wBatch("medium", 12), c13wBatch("large", 1200), c13wBatch("other-exporter", 80)}
+	bs := [][]tracesdk.ReadOnlySpan{c13wBatch("small", 1), c13wMixed(), c13wBatch("large", 1200), c13wBatch("other-exporter", 80)}
 	want := make([]*coltracepb.ExportTraceServiceRequest, len(bs))
 	for i, b := range bs {
 		want[i] = &coltracepb.ExportTraceServiceRequest{ResourceSpans: tracetransform.Spans(b)}
+		c13wSort(want[i])
 	}
 	verifc13w.Run(t, verifc13w.Target{
 		Name:    "otlptracehttp",
-		Batches: []string{"small (1 span)", "medium (12 spans)", "large (1200 spans)", "the second exporter's batch (80 spans)"},
+		Batches: []string{"small (1 span)", "mixed (2 resources x 2 scopes x 3 spans)", "large (1200 spans)", "the second exporter's batch (80 spans)"},
 		Check: func(b int, body []byte) string {
 			var got coltracepb.ExportTraceServiceRequest
 			if err := proto.Unmarshal(body, &got); err != nil {
 				return "not an ExportTraceServiceRequest: " + err.Error()
 			}
+			c13wSort(&got)
 			if !proto.Equal(&got, want[b]) {
 				n := 0
 				for _, rs := range got.ResourceSpans {
